@@ -51,11 +51,15 @@ Inductive bev (A : Type) :=
 | SizeCommit (ok : bool)      (* Commit after reaching MaxBatchSize, then stop-and-drain *)
 | Fire                        (* the runtime timer expires *)
 | OnTimer (ok : bool)         (* case <-batchTimer.C: Commit (nothing when the batch is empty, fix S28) *)
-| Reject (i : A).             (* LogPin refuses an operation that cannot be serialised (fix S29): an error, no effect *)
+| Reject (i : A)              (* LogPin/LogUnpin refuse an operation: it cannot be serialised (fix S29), or Shutdown has begun (fix S35): an error, no effect *)
+| StopCommit (ok : bool).     (* Shutdown closed the queue, the worker has taken everything (case item, ok := <-batchItemCh with !ok):
+                                 it commits the open batch and returns (fix S35); before the fix it returned on ctx.Done() at once *)
 Arguments Enq {A}. Arguments Take {A}. Arguments SizeCommit {A}. Arguments Fire {A}. Arguments OnTimer {A}. Arguments Reject {A}.
+Arguments StopCommit {A}.
 
 (* fixed_S28: the code after `fix: crdt batch worker does not commit an empty batch` (true) or before it (false) *)
-Record bcfg := mk_bcfg { qcap : N; maxsize : N; fixed_S2 : bool; fixed_S28 : bool }.
+(* fixed_S35: the code after `fix: crdt Shutdown commits the operations already accepted for batching` (true) or before it *)
+Record bcfg := mk_bcfg { qcap : N; maxsize : N; fixed_S2 : bool; fixed_S28 : bool; fixed_S35 : bool }.
 
 Definition binit {A} : bst A := mk_bst [] 0 t_idle [] [] [] PIdle false [] [].
 
@@ -103,6 +107,15 @@ Definition bstep {A} (c : bcfg) (s : bst A) (e : bev A) : bst A :=
       | PCommit => s
       end
   | Reject i => mk_bst (queue s) (cur s) (tm s) (pend s) (committed s) (tlog s) (pc s) (blocked s) (accepted s) (refused s ++ [i])
+  | StopCommit ok =>
+      if blocked s then s else
+      match pc s, queue s with
+      | PIdle, [] =>     (* the closed queue yields !ok only when it is empty and the worker is at its select *)
+          if fixed_S35 c && (0 <? cur s) && ok
+          then mk_bst [] 0 (tm s) [] (committed s ++ [pend s]) (tlog s) PIdle false (accepted s) (refused s)
+          else s
+      | _, _ => s
+      end
   end.
 
 Definition brun {A} (c : bcfg) (es : list (bev A)) : bst A := fold_left (bstep c) es binit.
